@@ -88,6 +88,50 @@ M = [
  ("c11-df11-resets-squawk", ["C11", "C06"], "src/decoder/plane/from_downlink/from_srt.rs", "                    self.capability.0 = v;", "                    self.capability.0 = v;\n                    if v == 0 {\n                        self.squawk = None;\n                    }"),
  ("c11-refeed-toggles", ["C11"], "src/decoder/plane/from_squitter/from_ext.rs", "        self.adsb_version = decoder::version(message);", "        self.adsb_version = if self.adsb_version == decoder::version(message) { None } else { decoder::version(message) };"),
  ("c10-40-fms-status-dropped", ["C10"], "src/decoder/bds/bds_4_0.rs", "        || !decoder::goodflags(message, 46, 47, 58)\n", ""),
+ ("c12-sweep-110", ["C12"], "src/decoder/planes.rs", "if app_state.cleanup_count > 10 {", "if app_state.cleanup_count > 110 {"),
+ ("c12-le", ["C12"], "src/decoder/planes.rs", "if elapsed < delete_after {", "if elapsed <= delete_after {"),
+ ("c12-refresh-only-df17", ["C12"], "src/decoder/plane/from_downlink.rs", "        self.timestamp = chrono::Utc::now();\n        match dl {", "        if matches!(dl, DF::EXT(_)) {\n            self.timestamp = chrono::Utc::now();\n        }\n        match dl {"),
+ ("c12-expire-on-position-ts", ["C12"], "src/decoder/planes.rs", "let elapsed = now.signed_duration_since(plane.timestamp).num_seconds();", "let elapsed = now.signed_duration_since(plane.position_timestamp.unwrap_or(plane.timestamp)).num_seconds();"),
+ ("c12-never-reset-count", ["C12"], "src/counters.rs", "    pub(crate) fn reset_cleanup_count(&mut self) {\n        self.cleanup_count = 0;", "    pub(crate) fn reset_cleanup_count(&mut self) {\n        self.cleanup_count = self.cleanup_count;"),
+ ("c12-filtered-frames-refresh", ["C12", "C16"], "src/reader.rs", "        if let Some(only) = &args.filter {\n            if only.iter().all(|&x| x != df) {\n                continue;\n            }\n        }\n", "        if let Some(only) = &args.filter {\n            if only.iter().all(|&x| x != df) {\n                if let Ok(mut p) = planes.aircrafts.write() {\n                    if let Some(pl) = p.get_mut(&icao) {\n                        pl.timestamp = chrono::Utc::now();\n                    }\n                }\n                continue;\n            }\n        }\n"),
+ ("c12-U-path-no-refresh-df11", ["C12"], "src/decoder/plane/from_squitter.rs", "        self.timestamp = Utc::now();\n", "        if df != 11 {\n            self.timestamp = Utc::now();\n        }\n"),
+ ("c12-retain-with-squawk", ["C12"], "src/decoder/planes.rs", "                    if elapsed < delete_after {", "                    if elapsed < delete_after || plane.squawk == Some(7700) {"),
+ ("c12-stale-row-reused", ["C12"], "src/decoder/planes.rs", "                    if elapsed < delete_after {\n                        true", "                    if elapsed < delete_after || elapsed < 2 * delete_after && plane.ais.is_some() {\n                        true"),
+ ("c16-count-before-filter", ["C16"], "src/reader.rs", "        if let Some(only) = &args.filter {\n            if only.iter().all(|&x| x != df) {\n                continue;\n            }\n        }\n\n        if args.count_df {\n            app_state.update_count(df);\n        }\n", "        if args.count_df {\n            app_state.update_count(df);\n        }\n\n        if let Some(only) = &args.filter {\n            if only.iter().all(|&x| x != df) {\n                continue;\n            }\n        }\n"),
+ ("c16-count-zero-address", ["C16"], "src/reader.rs", "        let Some(icao) = get_icao(&message, df) else {\n            continue;\n        };", "        let Some(icao) = get_icao(&message, df) else {\n            if args.count_df {\n                app_state.update_count(df);\n            }\n            continue;\n        };"),
+ ("c16-filter-mod16", ["C16"], "src/reader.rs", "if only.iter().all(|&x| x != df) {", "if only.iter().all(|&x| x % 16 != df % 16) {"),
+ ("c16-start-at-one", ["C16"], "src/counters.rs", ".or_insert(0) += 1;", ".or_insert(1) += 1;"),
+ ("c16-line-without-c", ["C16"], "src/reader.rs", "    if args.count_df {\n        app_state.print_df_count_line();", "    if args.count_df || args.filter.is_some() {\n        app_state.print_df_count_line();"),
+ ("c16-count-saturates", ["C16"], "src/counters.rs", "        *self.df_count.entry(df).or_insert(0) += 1;", "        let e = self.df_count.entry(df).or_insert(0);\n        if *e < 9 {\n            *e += 1;\n        }"),
+ ("c16-hashmap-order", ["C16"], "src/counters.rs", ".fold(String::new(), |acc, (df, count)| {\n                    acc + &format!(\"DF{}:{} \", df, count)", ".rev()\n                .fold(String::new(), |acc, (df, count)| {\n                    acc + &format!(\"DF{}:{} \", df, count)"),
+ ("c14-tas-width4", ["C14"], "src/decoder/plane/simple_display.rs", "            if let Some(tas) = self.true_airspeed {\n                write!(f, \"{:>3} \", tas)?;", "            if let Some(tas) = self.true_airspeed {\n                write!(f, \"{:>4} \", tas)?;"),
+ ("c14-swap-ias-tas", ["C14"], "src/decoder/plane/simple_display.rs", "if let Some(ias) = self.indicated_airspeed {", "if let Some(ias) = self.true_airspeed.and(self.indicated_airspeed).and(self.true_airspeed).or(self.indicated_airspeed) {"),
+ ("c14-angles-without-flag", ["C14"], "src/decoder/plane/simple_display.rs", "        if display_flags.angles() {", "        if display_flags.angles() || display_flags.speed() {"),
+ ("c14-left-align-alt", ["C14"], "src/decoder/plane/simple_display.rs", "            write!(f, \"{:>5}\", altitude)?;\n            write!(f, \"{}\", self.altitude_source)?;", "            write!(f, \"{:<5}\", altitude)?;\n            write!(f, \"{}\", self.altitude_source)?;"),
+ ("c14-no-sep-after-baro", ["C14"], "src/decoder/plane/simple_display.rs", "                write!(f, \"{:>4} \", value)?;\n            } else {\n                write!(f, \"{:4} \", \"\")?;", "                write!(f, \"{:>4}\", value)?;\n            } else {\n                write!(f, \"{:4} \", \"\")?;"),
+ ("c14-header-order", ["C14"], "src/decoder/plane/header.rs", "headers.extend([(\"TAS\", 3), (\"IAS\", 3), (\"MACH\", 4)]);", "headers.extend([(\"IAS\", 3), (\"TAS\", 3), (\"MACH\", 4)]);"),
+ ("c14-temp-precision", ["C14"], "src/decoder/plane/simple_display.rs", "write!(f, \"{:>5.1} \", temperature)?;", "write!(f, \"{:>5.0} \", temperature)?;"),
+ ("c14-lat-only-shown", ["C14"], "src/decoder/plane/simple_display.rs", "        if self.lat != 0.0 && self.lon != 0.0 {\n            write!(f, \"{:9.5} {:11.5} \", self.lat, self.lon)?;", "        if self.lat != 0.0 || self.lon != 0.0 {\n            write!(f, \"{:9.5} {:11.5} \", self.lat, self.lon)?;"),
+ ("c14-neg-vrate-abs", ["C14"], "src/decoder/plane/simple_display.rs", "            write!(f, \"{:>5}\", vrate)?;", "            write!(f, \"{:>5}\", vrate.abs())?;"),
+ ("c14-footer-missing", ["C14"], "src/reader.rs", "    planes.print(args, display_flags);\n\n    headers.print_separator();", "    planes.print(args, display_flags);\n\n    if !args.count_df {\n        headers.print_separator();\n    }"),
+ ("c14-weather-flag-extra", ["C14"], "src/decoder/plane/header.rs", "            display_flags_vec.contains(&'w'),", "            display_flags_vec.contains(&'w') || display_flags_vec.contains(&'x'),"),
+ ("c14-blank-squawk-zero", ["C14"], "src/decoder/plane/simple_display.rs", "        if let Some(squawk) = self.squawk {", "        if let Some(squawk) = self.squawk.filter(|s| *s != 0) {"),
+ ("c15-no-address-presort", ["C15"], "src/decoder/planes.rs", "        planes_vector.sort_by_cached_key(|&(k, _)| k);\n", ""),
+ ("c15-A-no-reverse", ["C15"], "src/decoder/planes.rs", "                'A' => {\n                    planes_vector.sort_by_cached_key(|&(_, p)| p.altitude);\n                    planes_vector.reverse();", "                'A' => {\n                    planes_vector.sort_by_cached_key(|&(_, p)| p.altitude);"),
+ ("c15-W-by-lat", ["C15"], "src/decoder/planes.rs", "planes_vector.sort_by(|&(_, a), &(_, b)| a.lon.total_cmp(&b.lon));", "planes_vector.sort_by(|&(_, a), &(_, b)| a.lat.total_cmp(&b.lat));"),
+ ("c15-dedupe-by-squawk", ["C15"], "src/decoder/planes.rs", "        sort_printed_planes(args, &mut planes_vector);\n", "        sort_printed_planes(args, &mut planes_vector);\n        planes_vector.dedup_by_key(|(_, p)| (p.squawk, p.altitude, p.ais.clone()));\n"),
+ ("c15-i32-keys", ["C15"], "src/decoder/planes.rs", "planes_vector.sort_by(|&(_, a), &(_, b)| a.lat.total_cmp(&b.lat));", "planes_vector.sort_by_cached_key(|&(_, p)| p.lat as i32);"),
+ ("c15-first-letter-wins", ["C15"], "src/decoder/planes.rs", "        for c in order_by.chars() {", "        for c in order_by.chars().rev() {"),
+ ("c15-squawk-desc", ["C15"], "src/decoder/planes.rs", "planes_vector.sort_by_cached_key(|&(_, p)| p.squawk);", "planes_vector.sort_by_cached_key(|&(_, p)| std::cmp::Reverse(p.squawk));"),
+ ("c15-dist-trunc", ["C15"], "src/decoder/planes.rs", "                'd' => {\n                    planes_vector.sort_by(|&(_, a), &(_, b)| {\n                        (a.distance_from_observer.unwrap_or(0.0))\n                            .total_cmp(&b.distance_from_observer.unwrap_or(0.0))\n                    });", "                'd' => {\n                    planes_vector.sort_by_cached_key(|&(_, p)| p.distance_from_observer.unwrap_or(0.0) as i32);"),
+ ("c19-quiet-skips-cleanup-update", ["C19"], "src/reader.rs", "            planes.update_aircraft(&downlink, &message, df, icao, args);\n            planes.cleanup(&mut app_state, now, args.delete_after);", "            if !display_flags.quiet() || df != 5 {\n                planes.update_aircraft(&downlink, &message, df, icao, args);\n            }\n            planes.cleanup(&mut app_state, now, args.delete_after);"),
+ ("c19-c-consumes-frame", ["C19", "C16"], "src/reader.rs", "        if args.count_df {\n            app_state.update_count(df);\n        }", "        if args.count_df {\n            app_state.update_count(df);\n            if df == 16 {\n                continue;\n            }\n        }"),
+ ("c19-downlink-log-error-stops", ["C19"], "src/reader.rs", "                downlink.log(downlink_error_log_file)?;", "                downlink.log(downlink_error_log_file)?;\n                if df == 0 {\n                    continue;\n                }"),
+ ("c19-M-filters", ["C19"], "src/reader.rs", "            if m.contains(&df) {\n                error!(\"DF:{}, L:{}\", df, line);\n            }", "            if m.contains(&df) {\n                error!(\"DF:{}, L:{}\", df, line);\n                if df == 11 {\n                    continue;\n                }\n            }"),
+ ("c19-observer-affects-position", ["C19", "C08"], "src/decoder/plane/update_position.rs", "                    if let Some(observer) = decoder::observer::get_observer_coords() {", "                    if let Some(observer) = decoder::observer::get_observer_coords().filter(|o| o.0 > -70.0) {"),
+ ("c19-U-callsign-needs-cat", ["C19", "C07", "C11"], "src/decoder/plane/from_squitter/from_ext.rs", "        self.ais = decoder::ais(message);\n        self.category = (message_type, message_subtype);", "        if message_subtype != 0 {\n            self.ais = decoder::ais(message);\n        }\n        self.category = (message_type, message_subtype);"),
+ ("c19-update-interval-drops", ["C19"], "src/reader.rs", "        if !display_flags.quiet() && app_state.is_time_to_refresh(&now, args.update) {", "        if args.update == 0 && df == 4 {\n            planes.aircrafts.write().unwrap().remove(&icao);\n        }\n        if !display_flags.quiet() && app_state.is_time_to_refresh(&now, args.update) {"),
+ ("c19-U-vrate-sign", ["C19", "C09"], "src/decoder/plane/from_squitter/from_ext.rs", "        self.vrate = decoder::vertical_rate(message);\n        self.vrate_source = ' ';", "        self.vrate = decoder::vertical_rate(message).map(|v| if v == -64 { 64 } else { v });\n        self.vrate_source = ' ';"),
 ]
 # mutants needing a second edit
 EXTRA = {
